@@ -274,7 +274,7 @@ class Real:
     def __init__(self, init, chooser, compiler=None):
         from netqasm.sdk.qubit import Qubit
         world.reset()
-        self.ctrl, self.conn = simctl.make_pair("alice", horizon=4000)
+        self.ctrl, self.conn = simctl.make_pair("alice", horizon=1500)
         self.ex = self.ctrl.executor
         self.ex.chooser = chooser.outcome
         self.P = Qubit(self.conn)
@@ -441,6 +441,11 @@ def run_case(prog, flushes, init, part, case_extra=None) -> None:
         part["distinct"] += 1 if nontrivial else 0
         c = dict(case, outcomes=outcomes)
         compare(tree, flushes, init, real, obs, outcomes, c, part)
+        if obs and obs[-1][0] in ("horizon", "blocked"):
+            # a non-terminating execution has unboundedly many measurement choice points: it is reported once, the
+            # remaining outcome scripts of this program are not enumerated
+            count(part, "outcome-enumeration-cut-at-nonterminating-execution")
+            break
 
 
 def _regs_stay_in_segment(tree, flushes) -> bool:
